@@ -17,7 +17,20 @@ monitor_restore_gp (C16)
     twice that U does not suggest twice, and the same set of configurations as U (nothing skipped).
     What the statement leaves open and is therefore NOT compared: the order of internal lists, numpy vs python
     scalar types, timing attributes.  S never runs on after the snapshot, so the (known) sharing of live lists
-    between get_state() and the running object cannot interfere.
+    between get_state() and the running object cannot interfere; every searcher gets its own copy of
+    restrict_configurations / points_to_evaluate.  Snapshots are taken where the tuner can take them (never between
+    get_config and register_pending of the same trial).
+    Catalogue: GPFIFOSearcher (+ constrained / cost-aware variants) in the initial random phase over
+    restrict_configurations (none / list / list containing the default first point / list that runs out) x
+    allow_duplicates x points_to_evaluate (default / empty / explicit, partly outside the list) x failed trials x
+    number of running trials, snapshot at EVERY event prefix; the same searchers with real (cheap) model fits:
+    sequential histories (nothing pending when the model is used), opt_skip_period, finite space with duplicates,
+    allowed lists, mode=max, max_size_data_for_model, two running trials; GPMultiFidelitySearcher inside
+    HyperbandScheduler(searcher="bayesopt") (stopping and promotion, searcher_data rungs / rungs_and_last / all,
+    gp_multitask / gp_independent) driven by a 3-worker workload with failures: trials are pending at rung levels or
+    paused at the snapshot and report after the restore.
+    Three situations in which the UNCHANGED library deviates have a clause of their own (CL_ESTRNG, CL_EXHAUSTED,
+    CL_SUBSAMPLE below), so that everything else is still compared strictly.
 
 monitor_seeded_searchers (C11)
     Property: two runs of the same scheduler / searcher constructed with the same arguments and the same random seed,
@@ -405,7 +418,7 @@ class _FifoDriver:
 
 
 def _fifo_scenarios(tier, seed):
-    from syne_tune.config_space import choice, randint, uniform
+    from syne_tune.config_space import choice, randint
     from syne_tune.optimizer.schedulers.searchers.gp_fifo_searcher import GPFIFOSearcher
 
     rs = np.random.RandomState(1000 + seed)
@@ -697,8 +710,6 @@ def _undisturbed_runs(book, tier, seed, samples):
     make = _make_mf(sc, 50 + seed)
     U_trace, _ = _run_async(make, 24)
     for what in ("dill.dumps(scheduler)", "searcher.get_state()"):
-        trace, sched, step = None, None, 0
-
         class Snap:
             """forwards everything, takes a snapshot before every suggest / on_trial_result"""
 
